@@ -100,6 +100,7 @@ fn main() {
                 "c17_names" => ("C17", c17e::part_names(tier)),
                 "c12_second" => ("C12", c12::part_second_lifecycle(tier)),
                 "c14_scope" => ("C14", c14s::part_scope(tier)),
+                "c03_inl" => ("C03", c01::part_c03_inlined(tier)),
                 "c19_regs" => ("C19", c19r::part_registers(tier, "C19")),
                 "c05_opt" => ("C05", c19r::part_registers(tier, "C05")),
                 "c17_objects" => ("C17", c18s::part_names_across_objects(tier)),
@@ -171,6 +172,7 @@ fn run_check(id: &str, tier: Tier) -> i32 {
         "C03" => {
             let mut r = Report::new("C03", tier, "model_checking");
             r.parts.push(c01::part_c03(tier));
+            r.parts.push(c01::part_c03_inlined(tier));
             finish(r)
         }
         "C05" => {
